@@ -206,6 +206,16 @@ type c03Variant struct {
 
 var c03WS = []string{" ", "\t", "\n", "\r", "  ", " \t\n", "\r\n", ""}
 
+// c03NeedsSep: in the expressions generated here "and", "or", "div" and "mod" only occur as operators, and an
+// operator name needs no blank before an opening parenthesis (XPath 1.0 section 3.7: after an operand an
+// NCName is an operator name, whatever follows it).
+func c03NeedsSep(a, b string) bool {
+	if b == "(" && (a == "and" || a == "or" || a == "div" || a == "mod") {
+		return false
+	}
+	return xp.NeedsSeparator(a, b)
+}
+
 func c03Variants(r *core.Rng, e *xp.Node) []c03Variant {
 	tm := xp.RenderTokens(e, xp.RenderMin)
 	tf := xp.RenderTokens(e, xp.RenderFull)
@@ -219,7 +229,7 @@ func c03Variants(r *core.Rng, e *xp.Node) []c03Variant {
 	for i, t := range tm {
 		if i > 0 {
 			ws := core.Pick(r, c03WS)
-			if ws == "" && xp.NeedsSeparator(tm[i-1], t) {
+			if ws == "" && c03NeedsSep(tm[i-1], t) {
 				ws = "\t"
 			}
 			b.WriteString(ws)
@@ -231,7 +241,7 @@ func c03Variants(r *core.Rng, e *xp.Node) []c03Variant {
 	// all removable whitespace removed
 	b.Reset()
 	for i, t := range tm {
-		if i > 0 && xp.NeedsSeparator(tm[i-1], t) {
+		if i > 0 && c03NeedsSep(tm[i-1], t) {
 			b.WriteString(" ")
 		}
 		b.WriteString(t)
@@ -253,7 +263,7 @@ func c03Variants(r *core.Rng, e *xp.Node) []c03Variant {
 		for i, t := range tm {
 			if i == bd {
 				b.WriteString(" \n\t ")
-			} else if i > 0 && xp.NeedsSeparator(tm[i-1], t) {
+			} else if i > 0 && c03NeedsSep(tm[i-1], t) {
 				b.WriteString(" ")
 			}
 			b.WriteString(t)
